@@ -182,7 +182,8 @@ static bool operator==(const Snap &a, const Snap &b) { return a.v == b.v; }
 
 // ------------------------------------------------------------------ value alphabet
 enum VCls { V_EMPTY, V_NUM, V_NUMX, V_FRAC, V_TEXT, V_LONG, V_COLOUR, V_POINT, V_TINT, V_TFLT, V_TCHR, V_TCOL, V_TPT, V_TLAT, V_TSTR, NVCLS };
-static const char *vclsname[] = { "empty-text", "numeral", "numeral", "numeral", "text", "long-text", "colour-text", "point-text", "typed-int", "typed-float", "typed-char", "typed-colour", "typed-point", "typed-lineattr", "typed-string" };
+// signature argument class: coarse (how the value is delivered), the detail line carries the value itself
+static const char *vclsname[] = { "empty-text", "text", "text", "text", "text", "text", "text", "text", "typed", "typed", "typed", "typed", "typed", "typed", "typed" };
 struct Val { int cls; const char *txt; char ty; const void *ptr; };   // txt != 0: string delivery ; else typed value
 static std::string X300(300, 'x');
 static const int32_t i0 = 0, i5 = 5, im1 = -1, i255 = 255, i256 = 256, i70000 = 70000, i120 = 120;
